@@ -199,12 +199,6 @@ Definition spec_sched (c : c17_case) : list (nat * sacc) :=
 
 Definition same_id (x y : nat * sacc) : bool := Nat.eqb (fst x) (fst y) && same_line (snd x) (snd y).
 
-Fixpoint next_idx (x : nat * sacc) (rest : list (nat * sacc)) : option nat :=
-  match rest with
-  | [] => None
-  | y :: r => if same_id x y then Some O else option_map S (next_idx x r)
-  end.
-
 (* a is used no sooner than b (never = latest) *)
 Definition later (a b : option nat) : bool :=
   match a, b with
@@ -213,63 +207,76 @@ Definition later (a b : option nat) : bool :=
   | Some x, Some y => Nat.leb y x
   end.
 
-Fixpoint furthest (rest : list (nat * sacc)) (R : list (nat * sacc)) : option (nat * sacc) :=
+(* the policy, for any kind of access record: [same] = same line of the same binding *)
+Section GMin.
+Context {A : Type} (same : A -> A -> bool) (isw isstg : A -> bool) (bidx : A -> nat).
+
+Fixpoint g_next_idx (x : A) (rest : list A) : option nat :=
+  match rest with
+  | [] => None
+  | y :: r => if same x y then Some O else option_map S (g_next_idx x r)
+  end.
+
+Fixpoint g_furthest (rest : list A) (R : list A) : option A :=
   match R with
   | [] => None
-  | y :: R' => match furthest rest R' with
+  | y :: R' => match g_furthest rest R' with
                | None => Some y
-               | Some z => if later (next_idx y rest) (next_idx z rest) then Some y else Some z
+               | Some z => if later (g_next_idx y rest) (g_next_idx z rest) then Some y else Some z
                end
   end.
 
-Definition drop_id (x : nat * sacc) (R : list (nat * sacc)) : list (nat * sacc) :=
-  filter (fun y => negb (same_id x y)) R.
+Definition g_drop (x : A) (R : list A) : list A := filter (fun y => negb (same x y)) R.
 
 (* make room: give up the lines used furthest in the future until one more line fits *)
-Fixpoint make_room (fuel : nat) (cap line : Z) (rest R : list (nat * sacc)) (np : nat)
-  : list (nat * sacc) :=
+Fixpoint g_make_room (fuel : nat) (cap line : Z) (rest R : list A) (np : nat) : list A :=
   match fuel with
   | O => R
   | S f => if Z.leb ((Z.of_nat (length R + np) + 1) * line) cap then R
-           else match furthest rest R with
+           else match g_furthest rest R with
                 | None => R
-                | Some z => make_room f cap line rest (drop_id z R) np
+                | Some z => g_make_room f cap line rest (g_drop z R) np
                 end
   end.
 
 (* R: replaceable resident lines, P: staging-area lines (held until their last use);
    result: fills per binding *)
-Fixpoint min_run (cap line : Z) (sched R P : list (nat * sacc)) (fills : list Z) : list Z :=
+Fixpoint g_min_run (cap line : Z) (sched R P : list A) (fills : list Z) : list Z :=
   match sched with
   | [] => fills
   | x :: rest =>
-    let nx := next_idx x rest in
-    if existsb (same_id x) (R ++ P) then
+    let nx := g_next_idx x rest in
+    if existsb (same x) (R ++ P) then
       match nx with
-      | None => min_run cap line rest (drop_id x R) (drop_id x P) fills      (* dead line leaves *)
-      | Some _ => min_run cap line rest R P fills
+      | None => g_min_run cap line rest (g_drop x R) (g_drop x P) fills      (* dead line leaves *)
+      | Some _ => g_min_run cap line rest R P fills
       end
     else
-      let fills' := if s_w (snd x) then fills else upd (fst x) (Z.add 1) fills in
+      let fills' := if isw x then fills else upd (bidx x) (Z.add 1) fills in
       match nx with
-      | None => min_run cap line rest R P fills'                              (* bypass *)
+      | None => g_min_run cap line rest R P fills'                              (* bypass *)
       | Some _ =>
         if Z.leb ((Z.of_nat (length R + length P) + 1) * line) cap then
-          if s_stg (snd x) then min_run cap line rest R (x :: P) fills'
-          else min_run cap line rest (x :: R) P fills'
-        else if s_stg (snd x) then
-          min_run cap line rest (make_room (S (length R)) cap line rest R (length P)) (x :: P) fills'
+          if isstg x then g_min_run cap line rest R (x :: P) fills'
+          else g_min_run cap line rest (x :: R) P fills'
+        else if isstg x then
+          g_min_run cap line rest (g_make_room (S (length R)) cap line rest R (length P)) (x :: P) fills'
         else
-          match furthest rest R with
-          | None => min_run cap line rest R P fills'                          (* nothing to replace *)
+          match g_furthest rest R with
+          | None => g_min_run cap line rest R P fills'                          (* nothing to replace *)
           | Some z =>
-            if later (next_idx z rest) nx
-            then min_run cap line rest
-                         (x :: make_room (S (length R)) cap line rest R (length P)) P fills'
-            else min_run cap line rest R P fills'                             (* bypass *)
+            if later (g_next_idx z rest) nx
+            then g_min_run cap line rest
+                         (x :: g_make_room (S (length R)) cap line rest R (length P)) P fills'
+            else g_min_run cap line rest R P fills'                             (* bypass *)
           end
       end
   end.
+End GMin.
+
+Definition min_run : Z -> Z -> list (nat * sacc) -> list (nat * sacc) -> list (nat * sacc) ->
+                     list Z -> list Z :=
+  g_min_run same_id (fun x => s_w (snd x)) (fun x => s_stg (snd x)) fst.
 
 Definition spec_min (c : c17_case) (cap : Z) : list Z :=
   min_run cap (k_line c) (spec_sched c) [] [] (repeat 0 (length (k_binds c))).
